@@ -109,7 +109,7 @@ A_MENU = [
     ("olist", ["1. a\n2. ", H("a"), "\n"]), ("quote-lazy", ["> a\n", H("a"), "\n"]), ("fence", ["```\n", H("a"), "\n```\n"]),
     ("heading", ["# a", H("a"), "\n"]), ("setext", ["a\n", H("a"), "=\n"]), ("hr", ["**", H("a"), "\n"]), ("code", ["    a", H("a"), "\n"]),
     ("table", ["a|b\n-|-\n", H("a"), "|2\n"]), ("refdef", ["[r]: /u '", H("a"), "'\n"]), ("html", ["<div>\n", H("a"), "\n"]),
-    ("nested", ["> - a\n>   ", H("a"), "\n"]), ("list-code", ["- a\n\n      ", H("a"), "\n"]),
+    ("nested", ["> - a\n>   ", H("a"), "\n"]), ("list-code", ["- a\n\n      ", H("a"), "\n"]), ("nested-list", ["- a\n  - ", H("a"), "\n"]),
 ]
 B_MENU = [
     ("para", ["b", H("b"), "\n"]), ("list", ["- ", H("b"), "\n"]), ("star-list", ["* b\n* ", H("b"), "\n"]), ("olist", ["1. ", H("b"), "\n"]),
@@ -131,7 +131,7 @@ def jobs(tier, seed):
                          "weight": 8 if tier == "quick" else 30, "cpu_cap": 1500, "wall_cap": 2400})
         for name, sa in A_MENU:
             fb = [{"v": "cdefgh"[i]} for i in range(k)] + ["\n"]
-            if tier == "quick" and name not in ("para", "tight-list", "quote-lazy", "setext", "table", "nested"):
+            if tier == "quick" and name not in ("para", "tight-list", "quote-lazy", "setext", "table", "nested", "nested-list"):
                 continue
             jobs.append({"harness": "concat", "params": {"cfg": cfg, "a": [p if isinstance(p, str) else "x" for p in sa], "b": fb,
                                                           "spec": spec, "name": f"freeB-{name}"},
@@ -140,6 +140,10 @@ def jobs(tier, seed):
             for bn, sb in B_MENU:
                 if tier == "quick":
                     # one free character (in A), B concrete
+                    if an == "para" and bn == "table":
+                        # free character in B (a table row position), A concrete
+                        jobs.append({"harness": "concat", "params": {"cfg": cfg, "a": ["ax\n"], "b": sb, "spec": spec, "name": "para+table(freeB)"},
+                                     "weight": 3, "cpu_cap": 900, "wall_cap": 1500})
                     if bn not in ("para", "list"):
                         continue
                     sb2 = [p if isinstance(p, str) else "y" for p in sb]
